@@ -214,6 +214,14 @@ def run(chk, tier):
                         chk.violation(rule, astx.sig(f), wclass, msg,
                                       {"entry": ent["id"], "config": cfg, "where": where, "witness": wit,
                                        "guards": r.guard_sites, "requirement": ent["req"]})
+                # G4: the operation's own precondition check must be able to fail (a check that holds in every object state
+                # and for every argument checks nothing: `size() <= capacity()` for `size() < capacity()`)
+                vac = sorted(g for g, (can_fail, unknown) in r.guard_falsifiable.items() if not can_fail and not unknown)
+                if r.guard_falsifiable:
+                    chk.obligation("G4", construct, not vac, evaluations=max(1, r.models))
+                    for g in vac[:1]:
+                        chk.violation("G4", astx.sig(f), "vacuous", "%s: the check %s cannot fail in any state or for any argument (requirement `%s`)" % (
+                            where, g, ent["req"]), {"entry": ent["id"], "config": cfg, "where": where, "guard": g, "requirement": ent["req"]})
                 chk.sample({"operation": astx.sig(f), "config": cfg, "requirement": ent["req"], "guards": r.guard_sites[:4],
                             "models": r.models, "variants": r.variants, "G1": r.g1, "G2": r.g2, "G3": r.g3})
     # ---- census: guarded functions not covered by any table entry (information only)
